@@ -213,6 +213,12 @@ def run(ctx):
     from .c06 import rule_sticky_scratch
     rule_sticky_scratch(ctx, mir, idx, rid="R05.5")
 
+    # ------------------------------------------------------------------ R05.6 (shared with C06 R06.1)
+    # what the tag scanner learned (CDATA permission, text type, last start tag) must survive the switch to the lexer
+    # for a matched tag, otherwise scoped handlers see other tokens than document-level ones
+    from .c06 import rule_bookmark
+    rule_bookmark(ctx, mir, rid="R05.6")
+
     ctx.not_decided += ["exactly-once delivery over all open/close sequences (needs the selector VM's run-time behaviour)", "text flushed before a tag is reported is rule R02.4 (C02)"]
     return ("Bookkeeping clauses of scoped dispatch read from the expanded syntax tree and MIR: balance and independence of handler activation, "
             "the kind/flag/token table across four functions, registration and iteration order, one-shot consumption of element/end-tag/end handlers.")
